@@ -77,6 +77,7 @@ type VerifKCPState struct {
 	AckList                             int
 	SndBufSn, RcvBufSn, RcvQueueSn      []uint32
 	SndBufXmit                          []uint32
+	SndBufRto                           []uint32
 	SndBufAcked                         []uint32
 	RcvQueueFrg                         []uint8
 }
@@ -99,6 +100,7 @@ func (kcp *KCP) VerifState(lists bool) (st VerifKCPState) {
 		for seg := range kcp.snd_buf.ForEach {
 			st.SndBufSn = append(st.SndBufSn, seg.sn)
 			st.SndBufXmit = append(st.SndBufXmit, seg.xmit)
+			st.SndBufRto = append(st.SndBufRto, seg.rto)
 			st.SndBufAcked = append(st.SndBufAcked, seg.acked)
 		}
 		for seg := range kcp.rcv_queue.ForEach {
